@@ -16,7 +16,7 @@ import itertools
 
 from ..model import AnalysisError
 from ..symex import Symex, Obj
-from ..terms import T, sym, show, expand_products, is_num, subterms, t_add
+from ..terms import T, sym, show, expand_products, is_num, subterms, t_add, canon
 from . import c08
 
 EXPLANATION = (
@@ -49,7 +49,11 @@ EXPLANATION = (
     "groups by (space, spin), lists every index once and gives two indices the same pattern iff their multisets of "
     "(position, coupling of the object) agree, whatever the order of the objects; with everything evaluated through, "
     "the pattern of a renamed term is the renamed pattern for renamings of contracted indices that flip the canonical "
-    "bra/ket orientation and reorder the objects (thorough: sweep over all renamings of a family of terms).")
+    "bra/ket orientation and reorder the objects (thorough: sweep over all renamings of a family of terms). R07f (call "
+    "history): find_compatible_terms and simplify are evaluated twice on one path (module-level mutable state of "
+    "simplify.py is part of the evaluated state and carried from the first call to the second) on a matrix of input "
+    "pairs (A, B) that wrap the same sympy terms in containers with different provided target indices, in another order "
+    "or next to new terms; on every path the second call returns exactly what B returns alone under the same decisions.")
 ASSUMPTIONS = [
     "completeness of the pattern fingerprints for arbitrary terms (that alpha-equivalent terms are always found) is "
     "decided only on the listed tables of small tensors/terms (bounded)",
@@ -62,6 +66,9 @@ ASSUMPTIONS = [
     "the `length` component of the prefilter key is implied by the tuple of descriptions and is not checked separately; "
     "which term of a class becomes the key and the order in which maps are tried are not prescribed",
     "find_compatible_terms / simplify are evaluated for at most five terms and 24 maps per pair (bounded)",
+    "R07f: histories of two calls on the listed input pairs; the sympy content of a term is an individual (equal iff the "
+    "same term), assumptions other than the target indices are taken to be reflected in the sympy content (sym_tensors / "
+    "real modify the tensors themselves); state outside simplify.py (cached_member of the containers) is not modelled",
 ]
 
 FCT = "simplify:find_compatible_terms"
@@ -99,6 +106,14 @@ class World:
     def tup(self, names):
         return tuple(self.idx(n) for n in names)
 
+    def content(self, name):
+        """The sympy content of a term: one record per term, shared by all Term containers that wrap it (the same
+        term inside expressions with different assumptions)."""
+        key = ("sympy", name)
+        if key not in self.I:
+            self.I[key] = Obj(None, f"{name}.sympy")
+        return self.I[key]
+
 
 _CLS = {"anti": {"AntiSymmetricTensor", "SymbolicTensor"}, "nonsym": {"NonSymmetricTensor", "SymbolicTensor"},
         "delta": {"KroneckerDelta"}, "pref": {"Number"}}
@@ -109,9 +124,11 @@ def tspec(target, pattern, objs=(("A", "anti", "", ""),)):
     return dict(target=target, pattern=pattern, objs=tuple(objs))
 
 
-def build_terms(w, specs, prefix="t"):
+def build_terms(w, specs, prefix="t", sids=None):
+    """Term records for the specs; ``sids`` (default: the positions) name the sympy contents the terms wrap."""
     out = []
-    for k, sp in enumerate(specs):
+    for pos_, sp in enumerate(specs):
+        k = sids[pos_] if sids is not None else pos_
         t = Obj("expr_container:Term", f"{prefix}{k}")
         objs = []
         for n, (descr, cl, up, lo) in enumerate(sp["objs"]):
@@ -121,7 +138,7 @@ def build_terms(w, specs, prefix="t"):
             o.attrs.update(_descr=descr, base=base, idx=w.tup(up + lo), term=t, exponent=1, name=descr,
                            type_as_str={"anti": "antisymtensor", "nonsym": "nonsymtensor", "delta": "delta", "pref": "prefactor"}[cl])
             objs.append(o)
-        t.attrs.update(target=w.tup(sp["target"]), objects=tuple(objs), sympy=T("attr", sym(f"{prefix}{k}"), "sympy"),
+        t.attrs.update(target=w.tup(sp["target"]), objects=tuple(objs), sympy=w.content(f"{prefix}{k}"),
                        _pattern={(s, ""): {w.idx(i): list(p) for i, p in d.items()} for s, d in sp["pattern"].items()})
         out.append(t)
     return out
@@ -256,9 +273,18 @@ def _term_no(t, prefix="t"):
     """i for `t<i>` / `t<i>.sympy`."""
     if isinstance(t, T) and t.op == "attr" and t.args[1] == "sympy":
         t = t.args[0]
-    if isinstance(t, T) and t.op == "sym" and str(t.args[0]).startswith(prefix) and str(t.args[0])[len(prefix):].isdigit():
-        return int(str(t.args[0])[len(prefix):])
+    if isinstance(t, T) and t.op == "sym":
+        nm = str(t.args[0])
+        if nm.endswith(".sympy"):
+            nm = nm[:-len(".sympy")]
+        if nm.startswith(prefix) and nm[len(prefix):].isdigit():
+            return int(nm[len(prefix):])
     return None
+
+
+def _is_content(t):
+    """`t<i>.sympy` (the wrapped sympy object, not the container)."""
+    return isinstance(t, T) and (t.op == "attr" and t.args[1] == "sympy" or t.op == "sym" and str(t.args[0]).endswith(".sympy"))
 
 
 def _sub_token(t):
@@ -312,7 +338,7 @@ class PathFacts:
         a, b = ps[0][1][0], ps[1][1][0]
         for u, v in ((a, b), (b, a)):
             i, st = _term_no(u), _sub_token(v)
-            if i is not None and isinstance(u, T) and u.op == "attr" and st is not None and st[0] is not None:
+            if i is not None and _is_content(u) and st is not None and st[0] is not None:
                 return i, st[0], st[1], st[2]
         return None
 
@@ -1119,11 +1145,103 @@ def r07e_sweep(ctx, cap=24):
     ctx.floor(rule, "renamings evaluated in the sweep", n, 100)
 
 
+
+# ---------------------------------------------------------------------------------------------------------------------
+# R07f: call history
+
+def _norm(v):
+    """Comparable image of a result (records by name and state, terms canonical)."""
+    if isinstance(v, Obj):
+        return ("record", v.name, v.attrs.get("_n"), v.attrs.get("_expanded"))
+    if isinstance(v, T):
+        return repr(canon(v))
+    if isinstance(v, dict):
+        return tuple(sorted(((_norm(k), _norm(x)) for k, x in v.items()), key=repr))
+    if isinstance(v, (list, tuple)):
+        return tuple(_norm(x) for x in v)
+    return v
+
+
+def history_pairs(tier):
+    """(A, B): the same terms (same sympy contents) wrapped by containers with different provided target indices /
+    assumptions.  X_ik Y_kj + X_jk Y_ki: alpha-equivalent as a scalar, different with the target indices i, j."""
+    XY = [("X", "nonsym", "ik", ""), ("Y", "nonsym", "kj", "")]
+    YX = [("X", "nonsym", "jk", ""), ("Y", "nonsym", "ki", "")]
+    scalar = [tspec("", P(occ={"i": ["X0"], "k": ["X1", "Y0"], "j": ["Y1"]}), XY),
+              tspec("", P(occ={"j": ["X0"], "k": ["X1", "Y0"], "i": ["Y1"]}), YX)]
+    matrix = [tspec("ij", P(occ={"i": ["X0i"], "k": ["X1", "Y0"], "j": ["Y1j"]}), [("Xi", "nonsym", "ik", ""), ("Yj", "nonsym", "kj", "")]),
+              tspec("ij", P(occ={"j": ["X0j"], "k": ["X1", "Y0"], "i": ["Y1i"]}), [("Xj", "nonsym", "jk", ""), ("Yi", "nonsym", "ki", "")])]
+    vector = [tspec("i", P(occ={"i": ["X0i"], "k": ["X1", "Y0"], "j": ["Y1"]}), [("Xi", "nonsym", "ik", ""), ("Y", "nonsym", "kj", "")]),
+              tspec("i", P(occ={"j": ["X0"], "k": ["X1", "Y0"], "i": ["Y1i"]}), [("X", "nonsym", "jk", ""), ("Yi", "nonsym", "ki", "")])]
+    third = tspec("", P(occ={"l": ["X0"], "k": ["X1", "Y0"], "m": ["Y1"]}), [("X", "nonsym", "lk", ""), ("Y", "nonsym", "km", "")])
+    pairs = {
+        "scalar, then the same sum with target indices i, j": (scalar, [0, 1], matrix, [0, 1]),
+        "target indices i, j, then the same sum as a scalar": (matrix, [0, 1], scalar, [0, 1]),
+        "the same expression twice": (scalar, [0, 1], scalar, [0, 1]),
+        "scalar, then the terms in the other order with target index i": (scalar, [0, 1], list(reversed(vector)), [1, 0]),
+        "scalar sum, then one of its terms next to a new term": (scalar, [0, 1], [scalar[1], third], [1, 2]),
+    }
+    if tier == "thorough":
+        pairs["target index i, then target indices i, j"] = (vector, [0, 1], matrix, [0, 1])
+        pairs["target indices i, j, then target index i"] = (matrix, [0, 1], vector, [0, 1])
+        pairs["three terms as scalar, then two of them with targets"] = (scalar + [third], [0, 1, 2], matrix, [0, 1])
+    return pairs
+
+
+def _history(ctx, rule, fn, what, name, make_alone, make_both):
+    """B after A must behave like B alone: every path of the history agrees with the path of B alone that takes the same
+    decisions."""
+    probe = Probe(nonzero=True)
+    sx = _sx(ctx, f"{what}[history: {name}]", probe)
+    alone = [(set((repr(a), p) for a, p in o.path), (o.kind, _norm(o.value) if o.kind == "return" else o.exc)) for o in sx.run(fn, make_alone)]
+    seq = sx.run_sequence([fn, fn], make_both)
+    bad = None
+    for o in seq:
+        if o.kind != "return":
+            raise AnalysisError(f"C07: history of {what} not evaluated: {o}")
+        kind, v = o.value[1]
+        got = (kind, _norm(v) if kind == "return" else v)
+        pathset = set((repr(a), p) for a, p in o.path)
+        same = [r for ps, r in alone if ps <= pathset]
+        if bad is None and (len(same) != 1 or same[0] != got):
+            bad = (got, same)
+    ctx.check(rule, fn, bad is None, f"{what}, {name}: the second call gives what it gives without the first ({len(seq)} path(s))",
+              f"{what}, {name}: after the first call the second one returns {_cut(repr(bad[0][1]))}, on its own it returns "
+              f"{_cut(repr(bad[1][0][1])) if bad[1] else 'nothing on these decisions (it asks different questions)'}: state kept "
+              "between calls (e.g. a cache keyed without the target indices / assumptions) changes the result" if bad else "",
+              key=f"history {what} / {name}")
+    return len(seq)
+
+
+def r07f_history(ctx):
+    rule = "R07f"
+    n = 0
+    fn = ctx.model.fn(FCT)
+    pairs = history_pairs(ctx.tier)
+    for name, (A, sa, B, sb) in pairs.items():
+        def both():
+            w = World()
+            return [dict(terms=build_terms(w, A, sids=sa)), dict(terms=build_terms(w, B, sids=sb))]
+        n += _history(ctx, rule, fn, "find_compatible_terms", name, lambda: dict(terms=build_terms(World(), B, sids=sb)), both)
+    fn = ctx.model.fn(SIMP)
+    for name, (A, sa, B, sb) in list(pairs.items())[:3] if ctx.tier == "quick" else pairs.items():
+        def ex(w, specs, sids, nm):
+            e = Obj("expr_container:Expr", nm)
+            ts = build_terms(w, specs, sids=sids)
+            e.attrs.update(_expanded=True, _exp_terms=ts, _n=len(ts), terms=tuple(ts), sympy=T("attr", sym(nm), "sympy"))
+            return e
+        n += _history(ctx, rule, fn, "simplify", name, lambda: dict(expr=ex(World(), B, sb, "exprB")),
+                      lambda: (lambda w: [dict(expr=ex(w, A, sa, "exprA")), dict(expr=ex(w, B, sb, "exprB"))])(World()))
+    ctx.floor(rule, "paths of call histories", n, 8)
+
+
 def run(ctx):
     if ctx.want("R07a") or ctx.want("R07b") or ctx.want("R07c"):
         r07abc_partition(ctx)
     if ctx.want("R07c") or ctx.want("R07a"):
         r07c_simplify(ctx)
+    if ctx.want("R07f"):
+        r07f_history(ctx)
     if ctx.want("R07e"):
         r07e_objects(ctx)
         r07e_terms(ctx)
